@@ -14,19 +14,27 @@ const MAXS: usize = 6;
 type V = Vector<Rat>;
 type M = Matrix<Rat>;
 
-fn rv(rng: &mut Rng, n: usize) -> V { vec_to_ohsl(&rand_vec(rng, n)) }
-fn rm(rng: &mut Rng, r: usize, c: usize) -> M { rand_dm(rng, r, c).to_ohsl() }
+thread_local! {
+    /// content mode of the table operands: 0 = random values, 1 = all entries zero (sparse: explicit zeros), 2 = nothing
+    /// stored at all (sparse: empty entry list). A "nothing to do" fast path must not come before the size checks.
+    static CONTENT: std::cell::Cell<u8> = std::cell::Cell::new(0);
+}
+fn content() -> u8 { CONTENT.with(|c| c.get()) }
+fn rv(rng: &mut Rng, n: usize) -> V { let v = vec_to_ohsl(&rand_vec(rng, n)); if content() > 0 { V::new(n, Rat::ZERO) } else { v } }
+fn rm(rng: &mut Rng, r: usize, c: usize) -> M { let m = rand_dm(rng, r, c).to_ohsl(); if content() > 0 { M::new(r, c, Rat::ZERO) } else { m } }
 fn rband(rng: &mut Rng, n: usize, m1: usize, m2: usize) -> Banded<Rat> {
     let mut b = Banded::<Rat>::new(n, m1, m2, Rat::int(7));
-    for i in 0..n { for j in 0..n { if j <= i + m2 && i <= j + m1 { b[(i, j)] = Rat::int(rng.int(1, 9)); } } }
+    for i in 0..n { for j in 0..n { if j <= i + m2 && i <= j + m1 { b[(i, j)] = if content() > 0 { let _ = rng.int(1, 9); Rat::ZERO } else { Rat::int(rng.int(1, 9)) }; } } }
     b
 }
 fn rtri(rng: &mut Rng, n: usize) -> Tridiagonal<Rat> {
-    Tridiagonal::with_vecs((0..n - 1).map(|_| rval(rng)).collect(), (0..n).map(|_| Rat::int(rng.int(1, 9))).collect(), (0..n - 1).map(|_| rval(rng)).collect())
+    let z = content() > 0;
+    Tridiagonal::with_vecs((0..n - 1).map(|_| { let v = rval(rng); if z { Rat::ZERO } else { v } }).collect(), (0..n).map(|_| { let v = Rat::int(rng.int(1, 9)); if z { Rat::ZERO } else { v } }).collect(), (0..n - 1).map(|_| { let v = rval(rng); if z { Rat::ZERO } else { v } }).collect())
 }
 fn rsparse(rng: &mut Rng, r: usize, c: usize) -> Sparse<f64> {
     let mut t = vec![];
     for i in 0..r { for j in 0..c { if i == j || rng.chance(0.3) { t.push((i, j, 1.0 + rng.unit())); } } }
+    match content() { 1 => { for e in t.iter_mut() { e.2 = 0.0; } } 2 => t.clear(), _ => {} }
     Sparse::<f64>::from_triplets(r, c, &mut t)
 }
 
@@ -562,7 +570,12 @@ pub fn run(ctx: &Ctx) -> Report {
     let _ = std::fs::create_dir_all(&ctx.workdir);
     let (workdir, seed) = (ctx.workdir.clone(), ctx.seed);
     let nrand = ctx.vol(3000, 150_000);
-    let stats = par_run(ctx, TAG, fixed + nmat + nrand, |u, rng, st| {
+    let ntab = fixed + nmat;
+    let stats = par_run(ctx, TAG, 3 * ntab + nrand, |u, rng, st| {
+        // the tables run three times: random content, all-zero content, nothing stored (sparse)
+        let (u, mode) = if u < 3 * ntab { (u % ntab, (u / ntab) as u8) } else { (u - 2 * ntab, 0u8) };
+        CONTENT.with(|c| c.set(mode));
+        if mode > 0 { st.count(&format!("table-runs:content-mode-{}", mode)); }
         match u {
             0 => table_vector(st, rng),
             1 => table_banded(st, rng),
@@ -573,10 +586,11 @@ pub fn run(ctx: &Ctx) -> Report {
             u if u < fixed + nmat => { let v = (u - fixed) as usize; table_matrix(st, rng, v / 5, v % 5); }
             _ => { for _ in 0..10 { non_mutation(st, rng); clone_independence(st, rng); } }
         }
+        CONTENT.with(|c| c.set(0));
     });
     let entry_points: Vec<String> = stats.counters.keys().filter(|k| k.starts_with("table:")).map(|k| k[6..].to_string()).collect();
     let mut rep = Report::new(stats,
-        "must-panic table: every binary operator / compound assignment / product / solver entry / checked accessor of Vector, Matrix, Banded, Tridiagonal, Sparse, Mesh1D, Mesh2D, Polynomial called with all mismatched size pairs up to 6 (matrices: all shape pairs in [0,4]^2) and every out-of-range row/column/band/node/variable/index up to size+2; for &mut entry points the receiver is snapshotted (all entries + private storage length) and must be identical after the caught panic. After-shrink histories: Vector (pop / resize / clear), Matrix (delete_row / resize / transpose_in_place / clear), Polynomial (coeffs().pop / trim) and Mesh1D (read() of a shorter file into a longer live mesh) are shrunk through their own API and every checked accessor is then called with arguments that were valid before and are out of range now. Non-mutation: every by-reference operator and &self method on operands containing -0.0, subnormals and NaN payloads, operands compared bit-for-bit afterwards, owned vs borrowed forms bit-identical. Clone independence: interleaved mutations on a matrix and its clone, each against its own model, plus mutate-the-clone checks for Vector, Banded, Tridiagonal, Polynomial. Non-trivial: each table row group / random case; distinct = distinct (type,sizes) or case hashes. The raw (i,j) index operators of Matrix, Banded (beyond the band test) and Mesh2D are outside the claim");
+        "must-panic table: every binary operator / compound assignment / product / solver entry / checked accessor of Vector, Matrix, Banded, Tridiagonal, Sparse, Mesh1D, Mesh2D, Polynomial called with all mismatched size pairs up to 6 (matrices: all shape pairs in [0,4]^2) and every out-of-range row/column/band/node/variable/index up to size+2; for &mut entry points the receiver is snapshotted (all entries + private storage length) and must be identical after the caught panic. Every table is run three times: with random contents, with all-zero contents and (Sparse) with nothing stored, so that a 'nothing to do' fast path cannot precede a size check. After-shrink histories: Vector (pop / resize / clear), Matrix (delete_row / resize / transpose_in_place / clear), Polynomial (coeffs().pop / trim) and Mesh1D (read() of a shorter file into a longer live mesh) are shrunk through their own API and every checked accessor is then called with arguments that were valid before and are out of range now. Non-mutation: every by-reference operator and &self method on operands containing -0.0, subnormals and NaN payloads, operands compared bit-for-bit afterwards, owned vs borrowed forms bit-identical. Clone independence: interleaved mutations on a matrix and its clone, each against its own model, plus mutate-the-clone checks for Vector, Banded, Tridiagonal, Polynomial. Non-trivial: each table row group / random case; distinct = distinct (type,sizes) or case hashes. The raw (i,j) index operators of Matrix, Banded (beyond the band test) and Mesh2D are outside the claim");
     rep.assumptions = vec!["any panic counts as a rejection".into(), "Sparse and the meshes have no Clone; their clone independence is vacuous".into()];
     rep.min_nontrivial = 150;
     let mut ex = J::obj();
